@@ -174,6 +174,49 @@ pub fn run(ctx: &Ctx) {
     });
     ctx.require_class("lifetime_steps", &format!("{}|{}|last", hashes[0].name(), "L2-mixedW"));
 
+    // ONE long-lived SigningKey object: lifetime query, signature (alternating try_sign and
+    // try_sign_with_aux), lifetime query ... until the key is exhausted and refuses
+    let mut objs: Vec<StepCase> = Vec::new();
+    for (hi, h) in ALL_HASHES.iter().enumerate() {
+        for (si, s) in [vec![(8u32, 2u32), (4u32, 2u32)], vec![(4, 5)], vec![(8, 2), (8, 2), (4, 2)]].iter().enumerate() {
+            if (hi + si) % 2 == 0 {
+                objs.push(StepCase { hash: *h, levels: s.clone(), counter: 0 });
+            }
+        }
+    }
+    ctx.enumerate("key_object_lifetime_history", objs.len() as u64, false, |i| objs[i as usize].clone(), |c: &StepCase| {
+        let n = c.hash.n();
+        let seed = gen::expand(0x0b7, n);
+        let total: u64 = 1u64 << c.levels.iter().map(|l| l.1).sum::<u32>();
+        let mut obj = match libapi::key_object(c.hash, &hss::private_key_blob(&c.levels, 0, &seed)) {
+            Some(o) => o,
+            None => return fail("key-object", "SigningKey::from_bytes refused a fresh key"),
+        };
+        let mut aux = libapi::AuxBuf::new(vec![0u8; 700]);
+        for k in 0..total {
+            match obj.lifetime() {
+                Out::Ok(v) if v == total - k => {}
+                o => return fail("lifetime-history", format!("after {} signatures through one SigningKey object get_lifetime = {:?}, expected {}", k, o, total - k)),
+            }
+            let with_aux = k % 3 != 0;
+            let r = obj.sign_obj(&gen::expand(k, 9), if with_aux { Some(&mut aux) } else { None });
+            if !r.is_ok() {
+                return fail("lifetime-history sign", format!("signature #{} of {} through one SigningKey object failed: {} {:?}", k + 1, total, r.kind(), r.panic_msg()));
+            }
+        }
+        if obj.bytes() != hss::wiped_blob(n) {
+            return fail("wiped-key-object", format!("the SigningKey object after its last signature is {}", gen::hex(&obj.bytes())));
+        }
+        match obj.lifetime() {
+            Out::Err => {}
+            o => return fail("after-exhaustion lifetime-history", format!("get_lifetime on the exhausted SigningKey object returns {:?}", o)),
+        }
+        if obj.sign_obj(b"once more", None).is_ok() || obj.sign_obj(b"once more", Some(&mut aux)).is_ok() {
+            return fail("after-exhaustion try_sign-ok", "the exhausted SigningKey object signs again");
+        }
+        pass(format!("object-history|{}|L{}", c.hash.name(), c.levels.len()), true)
+    });
+
     // pure arithmetic for real heights
     let maxlen = ctx.tier.pick(6usize, 8usize);
     let tuples = tuple_count(5, maxlen);
